@@ -353,3 +353,20 @@ Fixpoint offsets (start : nat) (sizes : list nat) : list nat :=
   | [] => []
   | s :: t => start :: offsets (start + s) t
   end.
+
+(* ---------- what MasterAxisStatus._mode_command records as "received mode command" ----------
+   command = mode_commands.get(mode_id); unknown or ignore -> 0, else the mode id itself *)
+Definition received_mode (codes : list Z) (mode_id : Z) : Z :=
+  if existsb (Z.eqb mode_id) codes then mode_id else 0.
+
+(* ---------- the blocks of a System: an assignment addresses one block ---------- *)
+Definition sys_set (descs : list (list field * axis_env)) (k : nat) (op : string * value)
+                   (st : list block) : list block :=
+  match nth_error descs k, nth_error st k with
+  | Some (t, e), Some b => upd k (set_or_keep t e op b) st
+  | _, _ => st
+  end.
+
+Definition sys_run (descs : list (list field * axis_env)) (ops : list (nat * (string * value)))
+                   (st : list block) : list block :=
+  fold_left (fun acc o => sys_set descs (fst o) (snd o) acc) ops st.
